@@ -50,6 +50,18 @@ class FilterOracles(Oracles):
     def key_of(self, obs):
         return "key%d" % self.cfg["cls"][obs]
 
+    def order_of(self, obs):
+        """the k-mer of this observation compared with its reverse complement: '<' (it is canonical), '>' (its rc is), '=' (palindrome)"""
+        od = self.cfg.get("order")
+        if od and obs in od:
+            return od[obs]
+        return ">" if self.cfg["flip"].get(obs) else "<"
+
+    def plain_name(self, obs):
+        if not self.cfg["stranded"] and self.order_of(obs) in "<=":
+            return self.key_of(obs)
+        return obs
+
     def on_call(self, it, fn, args, dest_ty, term, caller):
         path = fn.get("path", "")
         rpath = fn.get("rpath") or path
@@ -70,20 +82,48 @@ class FilterOracles(Oracles):
             e_in = args[1]
             if not (isinstance(e_in, Adt) and "caller-exts-%d" % si in tags_of(e_in)):
                 self.observe("wrong-seq-exts", si)
-            items = [Tup([Opaque("K", {"kmer"}, {"k": o, "canon": False, "obs": o}), exts_sym("x" + o)]) for o in self.cfg["obs"][si]]
+            # the k-mer as read: it IS the canonical form when it is not larger than its reverse complement
+            items = [Tup([Opaque("K", {"kmer"}, {"k": self.plain_name(o), "canon": False, "obs": o, "form": "plain"}), exts_sym("x" + o)]) for o in self.cfg["obs"][si]]
             return IterV("owned", (Ref(Cell(VecV(items), "obs")), 0, len(items)))
         if tr == "Kmer" and name in ("min_rc_flip", "min_rc"):
             k = recv(it, args[0])
             o = k.info.get("obs")
             self.canon_calls.append(o)
-            r = Opaque("K", {"kmer"}, {"k": self.key_of(o), "canon": True, "obs": o})
+            r = Opaque("K", {"kmer"}, {"k": self.key_of(o), "canon": True, "obs": o, "form": "canon"})
             if name == "min_rc":
                 return r
-            return Tup([r, mkbool(self.cfg["flip"][o])])
+            fl = self.order_of(o) != "<"
+            if k.info.get("form") == "rc":
+                fl = self.order_of(o) == "<"
+            return Tup([r, mkbool(fl)])
+        if tr == "Mer" and name == "rc" and args and isinstance(recv(it, args[0]), Opaque) and "obs" in recv(it, args[0]).info:
+            k = recv(it, args[0])
+            o = k.info["obs"]
+            self.canon_calls.append(o)
+            if k.info.get("form") == "plain":
+                nm = self.key_of(o) if (self.order_of(o) in ">=" and not self.cfg["stranded"]) else "rc(%s)" % o
+                return Opaque("K", {"kmer"}, {"k": nm, "canon": False, "obs": o, "form": "rc"})
+            if k.info.get("form") == "rc":
+                return Opaque("K", {"kmer"}, {"k": self.plain_name(o), "canon": False, "obs": o, "form": "plain"})
+            raise Undecided("reverse complement of a canonicalised k-mer")
+        if name in ("lt", "le", "gt", "ge", "cmp", "partial_cmp", "eq", "ne") and len(args) == 2 and tr.split("::")[-1].split("<")[0] in ("PartialOrd", "Ord", "PartialEq"):
+            a, b = recv(it, args[0]), recv(it, args[1])
+            if isinstance(a, Opaque) and isinstance(b, Opaque) and a.info.get("obs") is not None and a.info.get("obs") == b.info.get("obs"):
+                fa, fb = a.info.get("form"), b.info.get("form")
+                if {fa, fb} == {"plain", "rc"}:
+                    o_ = self.order_of(a.info["obs"])            # plain ? rc
+                    c = {"<": -1, "=": 0, ">": 1}[o_]
+                    if fa == "rc":
+                        c = -c
+                    if name == "cmp":
+                        return Adt("std::cmp::Ordering", c + 1, [])
+                    if name == "partial_cmp":
+                        return some(Adt("std::cmp::Ordering", c + 1, []))
+                    return mkbool({"lt": c < 0, "le": c <= 0, "gt": c > 0, "ge": c >= 0, "eq": c == 0, "ne": c != 0}[name])
         if path == "filter::bucket":
             k = recv(it, args[0])
             o = k.info.get("obs")
-            canon = k.info.get("canon")
+            canon = k.info.get("canon") or k.info.get("k") == self.key_of(o)
             self.bucket_asked.append((o, canon))
             # bucket of the canonical / plain form of this observation's k-mer
             if canon or self.cfg["stranded"]:
@@ -367,9 +407,11 @@ def filter_tables(F, rep, rule="C05"):
     # ---------------- Table B: canonicalisation of key and extensions
     problems = []
     for stranded in (False, True):
-        for flip in (False, True):
-            cfg = {"obs": [["a0"]], "size": 16, "report_all": True, "valid": {}, "flip": {"a0": flip}, "lens": {0: 3}, "stranded": stranded, "memory": 1,
+        for flip in (False, True, "palindrome"):
+            cfg = {"obs": [["a0"]], "size": 16, "report_all": True, "valid": {}, "flip": {"a0": bool(flip)}, "lens": {0: 3}, "stranded": stranded, "memory": 1,
                    "cls": {"a0": 0}, "bucket": [5], "plain_bucket": {"a0": 9}}
+            if flip == "palindrome":
+                cfg["order"] = {"a0": "="}
             rep.evaluations += 1
             try:
                 h, out = run_filter(F, body, cfg)
@@ -386,6 +428,16 @@ def filter_tables(F, rep, rule="C05"):
             (o, k, ex, lab) = h.summ[0][1][0]
             want_key = "a0" if stranded else "key0"
             want_ex = ("xa0", "rc" if (flip and not stranded) else "as-is")
+            if flip == "palindrome" and not stranded:
+                # a k-mer that is its own reverse complement: its one observation has one pair of flanks, in either orientation — not both
+                if ex in (("xa0", "as-is"), ("xa0", "rc")):
+                    want_ex = ex
+                else:
+                    problems.append("a k-mer that equals its reverse complement: the flanking extensions of its single observation are recorded as %s; required the "
+                                    "observed flanks in one orientation (the union of both orientations invents neighbours)" % (ex,))
+                    continue
+            elif flip == "palindrome":
+                want_ex = ("xa0", "as-is")
             if k != want_key:
                 problems.append("stranded=%s: the table key is %s; required %s" % (stranded, k, "the k-mer as read" if stranded else "the canonical (minimum) form"))
             if ex != want_ex:
@@ -509,7 +561,7 @@ def summarizer_tables(F, rep, rule="C05.6"):
         # ---- group sizes one past every size constant the summarizer mentions (caps, cut-offs): only the LAST observation carries
         # (symbolic) extensions — they must still reach the summary; the count may saturate at the type's maximum
         from .dt_graph import size_thresholds
-        for c in size_thresholds(F, body)[:2]:
+        for c in size_thresholds(F, body)[-2:]:
             n = c + 1
 
             def mk_big(script):
